@@ -67,7 +67,15 @@ func vc29B2i(b bool) int {
 	return 0
 }
 
+// vc29LongGets: history lengths around typical internal thresholds (64/256/1024 ± 1) and beyond.
+var vc29LongGets = []int{63, 64, 65, 255, 256, 257, 300, 600, 1023, 1024, 1025, 1500}
+
 func vc29Gen(r *vu.Rng, i int) []string {
+	if r.Chance(1, 64) {
+		// long sequential history on ONE queue with a standing backlog (never drains in between)
+		return []string{fmt.Sprintf("run qlong %d %d %d %d", r.Intn(3), vc29LongGets[r.Intn(len(vc29LongGets))],
+			[]int{1, 2, 5, 40, 300}[r.Intn(5)], r.Uint64()>>1)}
+	}
 	if r.Bool() {
 		return []string{fmt.Sprintf("run gate %d %d %d %d", r.Range(2, 8), r.Range(1, 12), r.Intn(2), r.Uint64()>>1)}
 	}
@@ -420,6 +428,113 @@ func vc29QueueOracle(all []vc29Event, mode int, fails *vc29Failures) {
 	if mode == 0 && len(pret) != len(pinv) {
 		fails.add("lost", "a put did not return")
 	}
+}
+
+// vc29RunQLong: ONE goroutine, one queue, a reference slice. `gets` successful gets happen while
+// the backlog never drops below 1 (pattern 0: steady put/get after a prefill of `backlog`;
+// 1: random bursts keeping the backlog in [1, backlog+burst]; 2: everything is put first), then the
+// queue is drained and closed. Every get uses an already cancelled context, so instead of blocking
+// it reports the context error: the oracle is FIFO exactly-once against the reference and "get never
+// blocks (never fails) while the reference is non-empty".
+func vc29RunQLong(pattern, gets, backlog int, s uint64, stats map[string]int) ([]vc29Event, [][2]string) {
+	q := newQueue[int]()
+	rng := vu.NewRng(s)
+	rec := &vc29Recorder{}
+	fails := &vc29Failures{}
+	ctx, cancel := context.WithCancel(context.Background())
+	cancel()
+	var ref []int
+	next, done := 0, 0
+	put := func() {
+		rec.log("pinv 0 %d", next)
+		ok := q.put(next)
+		rec.log("pret 0 %d %d", next, vc29B2i(ok))
+		if !ok {
+			fails.add("spurious-close", fmt.Sprintf("put(%d) rejected on an open queue", next))
+		}
+		ref = append(ref, next)
+		next++
+	}
+	get := func() bool {
+		rec.log("ginv 0")
+		v, err := q.get(ctx)
+		if err != nil {
+			rec.log("gret 0 ctx")
+			if len(ref) > 0 {
+				fails.add("blocked", fmt.Sprintf("get would block after %d gets although %d items are queued (oldest %d)", done, len(ref), ref[0]))
+				return false
+			}
+			return true
+		}
+		rec.log("gret 0 item 0 %d", v)
+		if len(ref) == 0 {
+			fails.add("phantom", fmt.Sprintf("get returned %d from an empty queue", v))
+			return false
+		}
+		if v != ref[0] {
+			fails.add("fifo", fmt.Sprintf("get #%d returned item %d, the reference queue has %d at its head (backlog %d)", done+1, v, ref[0], len(ref)))
+			return false
+		}
+		ref = ref[1:]
+		done++
+		return true
+	}
+	func() {
+		defer func() {
+			if e := recover(); e != nil {
+				fails.add("panic", fmt.Sprint(e))
+			}
+		}()
+		if pattern == 2 {
+			for i := 0; i < gets+backlog; i++ {
+				put()
+			}
+		} else {
+			for i := 0; i < backlog; i++ {
+				put()
+			}
+		}
+		for done < gets {
+			switch {
+			case len(ref) <= 1: // keep a standing backlog: never let the queue drain
+				put()
+			case pattern == 0:
+				if !get() {
+					return
+				}
+				put()
+			case pattern == 1 && rng.Bool() && len(ref) < backlog+8:
+				for n := rng.Range(1, 8); n > 0; n-- {
+					put()
+				}
+			default:
+				if !get() {
+					return
+				}
+			}
+		}
+		for len(ref) > 0 { // drain
+			if !get() {
+				return
+			}
+		}
+		if !get() { // empty and open: the cancelled context must be reported
+			return
+		}
+		rec.log("cinv")
+		q.close(vc29ErrClosed)
+		rec.log("cret")
+		rec.log("ginv 0")
+		if _, err := q.get(ctx); err != vc29ErrClosed {
+			fails.add("after-close", "get on a closed empty queue did not report the close error")
+			rec.log("gret 0 ctx")
+		} else {
+			rec.log("gret 0 closed")
+		}
+	}()
+	stats["qlong:gets"] += done
+	stats[fmt.Sprintf("qlong:pattern%d", pattern)]++
+	return rec.evs, fails.l
 }
 
 func vc29Exec(ops []string, o *vu.Out) {
